@@ -155,6 +155,13 @@ func (c *Ctl) FreeSlot(prefix string) string {
 	}
 }
 
+// LiveLocked reports whether a thread with this label exists and is not done.
+// Only for use inside BeginPoints callbacks (the controller's lock is held there).
+func (c *Ctl) LiveLocked(label string) bool {
+	t, ok := c.threads[label]
+	return ok && t.State != StDone
+}
+
 // Hook is the lib.VerifPoint receiver.
 func (c *Ctl) Hook(point string, subject any) {
 	gid := goid()
@@ -244,7 +251,8 @@ func (c *Ctl) Hook(point string, subject any) {
 		}
 		// falls through to parking if the point is active
 	}
-	if !c.cfg.Active[point] {
+	if !c.cfg.Active[point] || (subject != nil && c.cfg.Watched != nil && !c.cfg.Watched(subject)) {
+		// not a yield point of this scenario, or about an object the scenario does not watch
 		c.mu.Unlock()
 		return
 	}
